@@ -221,3 +221,18 @@ Definition pop_agrees_with (vs vz : variant) (tol : Q) (c : popcase) : bool :=
   | _, _ => false
   end.
 Definition pop_agrees := pop_agrees_with Fixed Fixed.
+
+
+(* ------------------------------------------------------------------------------------------ *)
+(*  nested basis contexts: what get_DensityMatrix accumulates from Manager().basis_transformations *)
+(* ------------------------------------------------------------------------------------------ *)
+Section Nested.
+  Context {R : StarRing}.
+  (* SS = eye; for ZZ in basis_transformations[1:]: SS = SS . ZZ        (Z_1 . Z_2 ... Z_m, outermost context first) *)
+  Definition basis_product (n : nat) (Zs : list (@mat R)) : @mat R := fold_left (fun S Z => mmul n S Z) Zs mid.
+  (* the inverses in the opposite order: Zi_m ... Zi_1 *)
+  Definition inverse_product (n : nat) (Zis : list (@mat R)) : @mat R := fold_left (fun T Zi => mmul n Zi T) Zis mid.
+  (* data of an operator after entering the contexts one after the other: X -> Zi . X . Z  (pairs (Z, Zi)) *)
+  Definition nested_data (n : nat) (ctx : list (@mat R * @mat R)) (A : @mat R) : @mat R :=
+    fold_left (fun X c => mmul n (snd c) (mmul n X (fst c))) ctx A.
+End Nested.
